@@ -33,9 +33,10 @@ fn main() {
         domain = "replay".into();
         bound = r;
     } else {
-        let t0 = std::time::Instant::now();
-        run(&name, &props, thorough, seed, &ctx);
-        let _ = t0;
+        // a panic that escapes a suite (e.g. while constructing a test value) is itself a violation of C06
+        if let Err(m) = guarded(|| run(&name, &props, thorough, seed, &ctx)) {
+            ctx.violate("C06.panic", "no operation of the library panics", json!({"suite": suite, "note": "the suite was aborted by a panic raised inside the library"}), m, "a value or an error".into());
+        }
         let d = describe(&name, thorough);
         domain = d.0;
         bound = d.1;
